@@ -14,13 +14,15 @@ import re
 from .. import known
 from ..common import tokens_outcome
 from ..gen import corpus, layout, lex
+from ..gen.fstr import FGen
 from ..gen.pysrc import PyGen
 from ..hyp import drive
 
 META = {
     "level": "exploration",
     "rule": (
-        "inputs: texts CPython's tokenize accepts and that contain no f-string, no '@(' and no xonsh-only character: G1 programs, "
+        "inputs: texts CPython's tokenize accepts and that contain no '@(' and no xonsh-only character (an f-string counts as ONE token from "
+        "its prefix to its closing quote on both sides; its inside is C10's): G1 programs, G7 f-string statements inside block layouts, "
         "G2 layout variants, G3 corpus statements, G6 fragments -- number spellings (valid and near-valid) in several embeddings, "
         "string prefix x quote x body, name/number/keyword adjacency, random indentation structures (spaces, tabs, form feeds, "
         "comment/blank lines), continuation placement, and ALL pairs (quick) / triples (thorough) of CPython operator tokens glued "
@@ -79,10 +81,26 @@ def theirs(src: str):
     offs = [0]
     for ln in lines:
         offs.append(offs[-1] + len(ln) + 1)
+    depth, fstart = 0, None
     for t in pytok.generate_tokens(io.StringIO(src).readline):
-        if t.type in FSTRING_TYPES:
-            return "fstring"
         n = pytoken.tok_name[t.type]
+        if n == "FSTRING_START":
+            depth += 1
+            if depth == 1:
+                fstart = tuple(t.start)
+            continue
+        if n == "FSTRING_END":
+            depth -= 1
+            if depth == 0:
+                # what is inside an f-string is C10's business; here it counts as one token from its prefix to its closing quote
+                (l1, c1), (l2, c2) = fstart, t.end
+                text = src[offs[l1 - 1] + c1 : offs[l2 - 1] + c2] if l1 - 1 < len(lines) and l2 - 1 < len(lines) else ""
+                if not re.match(r"(?i)[a-z]{1,2}(\'|\")", text) or text[-1:] != t.string[-1:] or not t.string:
+                    return "inconsistent"
+                out.append(("FSTRING", None, fstart, tuple(t.end)))
+            continue
+        if depth:
+            continue
         if n in ("COMMENT", "NL"):
             continue
         if n == "NAME" and not t.string.isidentifier():
@@ -97,8 +115,21 @@ def theirs(src: str):
 
 def ours(toks):
     out = []
+    depth, fstart = 0, None
     for t in toks:
         n = t.type.name
+        if n == "FSTRING_START":
+            depth += 1
+            if depth == 1:
+                fstart = tuple(t.start)
+            continue
+        if n == "FSTRING_END":
+            depth -= 1
+            if depth == 0:
+                out.append(("FSTRING", None, fstart, tuple(t.end)))
+            continue
+        if depth:
+            continue
         if n in ("WS", "COMMENT", "NL"):
             continue
         out.append((n, t.string, tuple(t.start), tuple(t.end)))
@@ -134,9 +165,6 @@ def check(rec, case):
     except (pytok.TokenError, SyntaxError, IndentationError, ValueError, RecursionError, SystemError):
         rec.case(case, False, labels=(f"stream:{stream}", "cpython-tokenize-rejects"))
         return
-    if b == "fstring":
-        rec.exclude("f-string(C10)")
-        return
     if b == "inconsistent":
         rec.exclude("cpython-token-contradicts-its-own-text-or-lexical-rules")
         return
@@ -154,7 +182,8 @@ def check(rec, case):
             return
     kind, val = tokens_outcome(src)
     nt = len(b) >= 6 or stream.startswith("g6")
-    rec.case(case, nt, labels=(f"stream:{stream}",), key=src)
+    has_f = any(x[0] == "FSTRING" for x in b)
+    rec.case(case, nt, labels=(f"stream:{stream}",) + (("f-string-as-one-token",) if has_f else ()), key=src)
     if kind != "tokens":
         rec.fail(case, f"ours-rejects:{val.canon()[0]}:{val.etype}", {"outcome": [str(x)[:200] for x in val.canon()]})
         return
@@ -215,6 +244,16 @@ def search(rec, ctx):
                 check(rec, {"src": v[0], "stream": "g2-layout"})
 
     drive(st.randoms(use_true_random=False), g1, ctx.budget(6000, 150000), ctx.hseed("g1"))
+
+    def fstr(rnd):
+        # f-strings as opaque tokens: what follows them (NEWLINE / INDENT / DEDENT placement, the next tokens) must not be disturbed
+        g = FGen(rnd, nonascii=rnd.random() < 0.15)
+        body = g.statement()
+        lay = rnd.choice(["{S}", "{S}y = 1\n", "if c:\n    {S}y = 1\n", "if c:\n    {S}\ny = 1\n", "def f():\n    if a:\n        {S}    z = 2\nw = 3\n", "{S}\n\n# c\nk = 0\n", "while t:\n\t{S}\n", "if c:\n  {S}  {S2}else:\n  pass\n"])
+        src = lay.replace("{S}", body).replace("{S2}", g.statement() if "{S2}" in lay else "")
+        check(rec, {"src": src, "stream": "g7-fstring-in-layout"})
+
+    drive(st.randoms(use_true_random=False), fstr, ctx.budget(5000, 120000), ctx.hseed("fstr"))
 
     crng = ctx.rng("corpus")
     if ctx.thorough:
